@@ -14,6 +14,16 @@ CLAIMED = {
         "values to present/absent. The shape-map stage of the constructor and the deferred-failure predicate are modelled by hand "
         "and validated exhaustively against the implementation.",
    technique="Lean 4 proof over AST-generated guard + exhaustive correspondence", design="5/C20"),
+ "C01": dict(
+   text="Proof (R1): for every graph, configuration and selection of instances, every entry of the class profile - the only source "
+        "of the figures on constraint lines and in comments - equals the declarative count (number of selected nodes with exactly k / "
+        "at least one value of the stated kind), and every class count equals the number of selected nodes; no entry exceeds the class "
+        "count. Tie: ordered correspondence of the canonical shape list between the Lean model and the implementation; every figure the "
+        "implementation prints is recomputed by the Lean Spec through the driver (failing-input search).",
+   note="Trusts Lean's kernel, harness/extract.py, the ShExC text parser and the correspondence domain (class targets / all classes, "
+        "cap, ignored namespaces, inverse paths, all switches). The passage of figures from the profile through the merge stages is "
+        "modelled and validated; theorems about it are in Props/C01b.lean when listed in the evidence. NONLITERAL merges are known findings.",
+   technique="Lean 4 refinement proof (dictionary passes vs declarative counts) + differential correspondence + Spec oracle", design="5/C01"),
 }
 PENDING_REASON = "check not built yet (work in progress; see DESIGN.md section 9 for the build order)"
 
